@@ -4,14 +4,10 @@ package witness
 
 // C17 witnesses.
 //
-// TestC17_*        pass on /repo (regressions of what is proven / repaired).
-// TestC17Pending_* reproduce the two sequences on which the code as it is violates C17
-//                  (see notes/design/C17.md, notes/proposed-fixes/c17-*.diff). They FAIL on the
-//                  unpatched tree, so they only run with VERIF_PENDING=1:
-//                  cd harness && VERIF_PENDING=1 go test -tags verif -run TestC17Pending ./witness
+// TestC17_NoTrackingCollision and TestC17_InvalidNickRepeat fail before the two C17 fixes of
+// nickCollisionHandler (notes/proposed-fixes/c17-*.diff).
 
 import (
-	"os"
 	"reflect"
 	"strings"
 	"testing"
@@ -59,16 +55,9 @@ func TestC17_CollisionAfterWelcomeAndPing(t *testing.T) {
 	}
 }
 
-func pending(t *testing.T) {
-	if os.Getenv("VERIF_PENDING") == "" {
-		t.Skip("reproduces an unrepaired defect; set VERIF_PENDING=1 to run")
-	}
-}
-
 // With tracking disabled the collision handler panics in GetNick and proposes nothing
 // (without Config.RecoverFunc the panic kills the process).
-func TestC17Pending_NoTrackingCollision(t *testing.T) {
-	pending(t)
+func TestC17_NoTrackingCollision(t *testing.T) {
 	s := drive.Start(drive.BaseConfig())
 	defer s.Stop()
 	s.C.DisableTracking()
@@ -82,8 +71,7 @@ func TestC17Pending_NoTrackingCollision(t *testing.T) {
 }
 
 // A refused nickname that IsValidNick rejects (non-ASCII) is proposed again.
-func TestC17Pending_InvalidNickRepeat(t *testing.T) {
-	pending(t)
+func TestC17_InvalidNickRepeat(t *testing.T) {
 	s := drive.Start(drive.BaseConfig())
 	defer s.Stop()
 	lines := sentLines(s, func() {
